@@ -347,8 +347,13 @@ def c09_worker(item):
     g = r.randint(1, np_) if len(ws.patches) != 2 or r.random() < 0.5 else 2  # goal: first g patches
     backup = r.choice(["never", "never", "always", None])
 
+    fuzz = ["-F", str(r.choice([1, 2, 3]))] if r.random() < 0.15 else []
+    if fuzz:
+        ws.no_goal_truth = True   # which patch fails first is known by construction only without fuzz
+        res.count("workspaces-pushed-with-fuzz")
+
     def inv(goal_kind, upto, threads):
-        a = base_args(threads=threads, backup=backup, verbosity="-q") + ["push"]
+        a = base_args(threads=threads, backup=backup, verbosity="-q", extra=fuzz) + ["push"]
         if goal_kind == "all":
             return a + ["-a"]
         if goal_kind == "name":
@@ -377,7 +382,7 @@ def c09_worker(item):
         elif r.random() < 0.5:
             a1 = inv("name", g, r.choice([1, 4]))
         else:
-            a1 = base_args(threads=r.choice([1, 4]), backup=backup, verbosity="-q") + ["push", str(g)]
+            a1 = base_args(threads=r.choice([1, 4]), backup=backup, verbosity="-q", extra=fuzz) + ["push", str(g)]
         r1 = run(single, a1)
         res["evals"] = 1
         if r1.timed_out:
@@ -410,7 +415,7 @@ def c09_worker(item):
                 nxt = pos + 1
             elif kind == "count":
                 c = r.randint(1, g - pos)
-                a = base_args(threads=th, backup=backup, verbosity="-q") + ["push", str(c)]
+                a = base_args(threads=th, backup=backup, verbosity="-q", extra=fuzz) + ["push", str(c)]
                 nxt = pos + c
             elif kind == "name":
                 t = r.randint(pos + 1, g)
@@ -679,8 +684,14 @@ def c10_worker(item):
     first = 0
     if ws.fail_at is None and len(ws.patches) > 1 and r.random() < 0.3:
         first = r.randint(1, len(ws.patches) - 1)
-    goal = ["-a"] if r.random() < 0.7 else [str(r.randint(1, len(ws.patches)))]
-    common_args = base_args(threads=threads, backup=backup, verbosity=verbosity)
+    goal = ["-a"] if r.random() < 0.7 else ([str(r.randint(1, len(ws.patches)))] if r.random() < 0.6 or first else [r.choice(ws.patches).name])
+    extra = []
+    if r.random() < 0.35:
+        # other options in combination with --dry-run (the comparison with the real run is differential, so any option goes)
+        for opt in r.sample([["-F", str(r.choice([1, 2, 3]))], ["-A", "multiapply"], ["--mmap"], ["--stats"], ["--color", "always"], ["--backup-count", r.choice(["0", "1", "all"])]], r.randint(1, 3)):
+            extra += opt
+        res.count("dry-runs-with-other-options")
+    common_args = base_args(threads=threads, backup=backup, verbosity=verbosity, extra=extra)
     dry = common_args + ["--dry-run", "push"] + goal
     real = common_args + ["push"] + goal
     sig0 = {"driver": "seq" if threads == 1 else "par"}
@@ -1092,8 +1103,9 @@ def c14_worker(item):
         variant = sorted(set(sum(r.sample(C14_VARIANTS, 2), [])), key=lambda x: x)
         # repair option/value pairs broken by the set union
         variant = [x for x in variant if x not in ("always", "never", "multiapply", "--color", "-A")]
-    base = base_args(threads=threads, backup=backup, verbosity="-q") + ["push"] + goal
-    var = base_args(threads=threads, backup=backup, verbosity=None) + list(variant) + ["push"] + goal
+    fuzz = ["-F", str(r.choice([1, 2, 3]))] if r.random() < 0.1 else []
+    base = base_args(threads=threads, backup=backup, verbosity="-q", extra=fuzz) + ["push"] + goal
+    var = base_args(threads=threads, backup=backup, verbosity=None, extra=fuzz) + list(variant) + ["push"] + goal
     sig0 = {"driver": "seq" if threads == 1 else "par", "shape": shape}
     with Scratch("c14") as scr:
         orig, w1 = fresh(scr, ws, first)
@@ -1878,8 +1890,13 @@ def c06_worker(item):
     verbosity = r.choice(["-q", "-q", None])
     dry = r.random() < 0.1
     common_tail = (["--dry-run"] if dry else []) + ["push", "-a"]
-    a_seq = base_args(threads=1, backup=backup, backup_count=bcount, verbosity=verbosity) + common_tail
-    a_par = base_args(threads=nthreads, backup=backup, backup_count=bcount, verbosity=verbosity) + common_tail
+    extra = []
+    if r.random() < 0.2:
+        for opt in r.sample([["-F", str(r.choice([1, 2, 3]))], ["-A", "multiapply"], ["--mmap"]], r.randint(1, 2)):
+            extra += opt
+        res.count("workspaces-with-fuzz-/-mmap-/-analysis-options")
+    a_seq = base_args(threads=1, backup=backup, backup_count=bcount, verbosity=verbosity, extra=extra) + common_tail
+    a_par = base_args(threads=nthreads, backup=backup, backup_count=bcount, verbosity=verbosity, extra=extra) + common_tail
     with Scratch("c06") as scr:
         orig, wseq = fresh(scr, ws, 0)
         r1 = runner.run_rq(binary, wseq, a_seq)
